@@ -195,6 +195,37 @@ static void d_tiny(C4_Tiny_table_t t)
     D(" n8="); if (!C4_Tiny_n8(t)) D("~"); else { C4_Point_struct_t q = C4_Tiny_n8_as_root(t); D("(%d,%d)", C4_Point_x(q), C4_Point_y(q)); }
     D(" s1="); d_s1(C4_Tiny_s1(t)); D(" s3="); d_s3(C4_Tiny_s3(t)); D(" k="); P(C4_Tiny_k_is_present(t)); D("%d}", C4_Tiny_k(t));
 }
+static void d_twin(C4_Twin_table_t t)
+{
+    size_t i; C4_Item_vec_t v;
+    if (!t) { D("~"); return; }
+    D("Twin{a="); if (!C4_Twin_a(t)) D("~"); else d_sub(C4_Twin_a_as_root(t));
+    D(" b="); if (!C4_Twin_b(t)) D("~"); else d_sub(C4_Twin_b_as_root(t));
+    v = C4_Twin_items(t); D(" items=");
+    if (!v) D("~"); else { D("["); for (i = 0; i < C4_Item_vec_len(v); ++i) { C4_Item_table_t it = C4_Item_vec_at(v, i);
+        D("Item{"); if (!C4_Item_payload(it)) D("~"); else d_sub(C4_Item_payload_as_root(it)); D(" id="); P(C4_Item_id_is_present(it)); D("%d},", C4_Item_id(it)); } D("]"); }
+    D(" n="); P(C4_Twin_n_is_present(t)); D("%d}", C4_Twin_n(t));
+}
+static void d_dp1(C4_Dp1_struct_t x) { if (!x) D("~"); else D("Dp1(%u,%u)", C4_Dp1_b(x), C4_Dp1_c(x)); }
+static void d_dpt(C4_DpT_table_t t)
+{
+    size_t i; C4_Dp1_vec_t v;
+    if (!t) { D("~"); return; }
+    D("DpT{d1="); d_dp1(C4_DpT_d1(t));
+    D(" d2="); if (!C4_DpT_d2(t)) D("~"); else D("Dp2(%u,%u)", C4_Dp2_a(C4_DpT_d2(t)), C4_Dp2_c(C4_DpT_d2(t)));
+    D(" d3="); if (!C4_DpT_d3(t)) D("~"); else D("Dp3(%u,%u)", C4_Dp3_a(C4_DpT_d3(t)), C4_Dp3_b(C4_DpT_d3(t)));
+    v = C4_DpT_v1(t); D(" v1="); if (!v) D("~"); else { D("["); for (i = 0; i < C4_Dp1_vec_len(v); ++i) d_dp1(C4_Dp1_vec_at(v, i)); D("]"); }
+    D(" n="); P(C4_DpT_n_is_present(t)); D("%d}", C4_DpT_n(t));
+}
+static void d_multi(C4_Multi_table_t t)
+{
+    size_t i;
+    if (!t) { D("~"); return; }
+    { C4_DepMid_vec_t v = C4_Multi_xs(t); D("Multi{xs="); if (!v) D("~"); else { D("["); for (i = 0; i < C4_DepMid_vec_len(v); ++i) { d_depmid(C4_DepMid_vec_at(v, i)); D(","); } D("]"); } }
+    D(" a="); d_depmid(C4_Multi_a(t)); D(" b="); d_depmid(C4_Multi_b(t));
+    { C4_DepLast_vec_t v = C4_Multi_ys(t); D(" ys="); if (!v) D("~"); else { D("["); for (i = 0; i < C4_DepLast_vec_len(v); ++i) { d_deplast(C4_DepLast_vec_at(v, i)); D(","); } D("]"); } }
+    D("}");
+}
 static void d_node(C4_Node_table_t t, int depth);
 static void d_tree(C4_Tree_union_type_t type, flatbuffers_generic_t v, int depth)
 {
@@ -272,6 +303,10 @@ static struct root roots[] = {
     { "DepMid", C4_DepMid_parse_json_as_root, C4_DepMid_print_json_as_root, C4_DepMid_verify_as_root_with_identifier, 10 },
     { "DepLast", C4_DepLast_parse_json_as_root, C4_DepLast_print_json_as_root, C4_DepLast_verify_as_root_with_identifier, 11 },
     { "DepOnly", C4_DepOnly_parse_json_as_root, C4_DepOnly_print_json_as_root, C4_DepOnly_verify_as_root_with_identifier, 12 },
+    { "Twin", C4_Twin_parse_json_as_root, C4_Twin_print_json_as_root, C4_Twin_verify_as_root_with_identifier, 18 },
+    { "DpT", C4_DpT_parse_json_as_root, C4_DpT_print_json_as_root, C4_DpT_verify_as_root_with_identifier, 19 },
+    { "Dp1", C4_Dp1_parse_json_as_root, C4_Dp1_print_json_as_root, C4_Dp1_verify_as_root_with_identifier, 20 },
+    { "Multi", C4_Multi_parse_json_as_root, C4_Multi_print_json_as_root, C4_Multi_verify_as_root_with_identifier, 21 },
     { "Tiny", C4_Tiny_parse_json_as_root, C4_Tiny_print_json_as_root, C4_Tiny_verify_as_root_with_identifier, 13 },
     { "S1", C4_S1_parse_json_as_root, C4_S1_print_json_as_root, C4_S1_verify_as_root_with_identifier, 14 },
     { "S2", C4_S2_parse_json_as_root, C4_S2_print_json_as_root, C4_S2_verify_as_root_with_identifier, 15 },
@@ -297,6 +332,10 @@ static char *dump_buffer(struct root *r, const void *buf, int presence)
     case 11: d_deplast(C4_DepLast_as_root(buf)); break;
     case 12: d_deponly(C4_DepOnly_as_root(buf)); break;
     case 13: d_tiny(C4_Tiny_as_root(buf)); break;
+    case 21: d_multi(C4_Multi_as_root(buf)); break;
+    case 19: d_dpt(C4_DpT_as_root(buf)); break;
+    case 20: d_dp1(C4_Dp1_as_root(buf)); break;
+    case 18: d_twin(C4_Twin_as_root(buf)); break;
     case 14: d_s1(C4_S1_as_root(buf)); break;
     case 15: d_s2(C4_S2_as_root(buf)); break;
     case 16: d_s2s(C4_S2s_as_root(buf)); break;
